@@ -346,10 +346,23 @@ def read_token(rrows, token, defaults, element_names, transform=None):
 def run(chk):
     prog = chk.prog
     chk.call(r1_atom_types, chk)
+    chk.call(r1b_symbol_is_member_name, chk)
     chk.call(r2_bond_types, chk)
     chk.call(r3_records, chk)
     chk.call(r4_siblings, chk)
     chk.call(r5_ensembles, chk)
+    # the top-level entry points ml.load / loads / load_all / loads_all / dump / dumps are one more way through the same round trip:
+    # for this format each of them hands the text to / returns the object of the class reader or writer as it is (name included) -
+    # the clauses C09.R1 / R3 decide, evaluated under this property's name for the mol2 arms
+    from . import c09
+
+    mol_ = chk.prog.cls("molli.chem.molecule:Molecule")
+    ens_ = chk.prog.cls("molli.chem.ensemble:ConformerEnsemble")
+    keep = lambda o: o["rule"] in ("C09.R1", "C09.R3") and (":mol2" in o["construct"] or o["construct"].endswith("mol2"))
+    for E_ in c09.LOADERS:
+        chk.borrow("C07.R6", c09.loader, chk, chk.prog.func(f"{c09.RD}:{E_}"), E_, mol_, ens_, only=keep)
+    for E_ in ("dump", "dumps"):
+        chk.borrow("C07.R6", c09.dumper, chk, chk.prog.func(f"{c09.WR}:{E_}"), E_, mol_, ens_, only=keep)
 
 
 def r1_atom_types(chk):
@@ -511,6 +524,17 @@ def r2_bond_types(chk):
         chk.decide(not memo, "C07.R2", f"{gg.key}:token-from-current-state", gg.where(), "computed on every call",
                    f"{gg.qualname} is memoised ({', '.join(memo)}): after a type is edited in place the old token is still written - the text no longer describes the molecule")
     if any("cache" in norm(d_) for d_ in s.node.decorator_list):
+        # a memoised *setter* is skipped for an argument tuple that compares (and hashes) equal to an earlier one.  That is harmless only
+        # while no two bonds hash alike: Bond.__hash__ must be a function of the object's identity.  With a hash over the endpoints
+        # (which is what __eq__ compares) the second record of a file over the same atom pair with the same token is never typed.
+        bond_cls = chk.prog.cls("molli.chem.bond:Bond")
+        hm = bond_cls.members.get("__hash__")
+        hrets = [r for r in ast.walk(hm.func) if isinstance(r, ast.Return) and r.value is not None] if hm is not None and hm.func is not None else []
+        by_identity = hm is None or (len(hrets) == 1 and "id(self)" in norm(hrets[0].value) and not any(isinstance(x, ast.Attribute) and norm(x.value) == "self" for x in ast.walk(hrets[0].value)))
+        chk.decide(by_identity, "C07.R2", f"{s.key}:memoised-setter-needs-identity-hash", s.where(),
+                   "Bond.set_mol2_type is memoised, Bond.__hash__ is the object's identity: no two bonds share a cache entry",
+                   f"Bond.set_mol2_type is wrapped in functools.cache and Bond.__hash__ is `{short(hrets[0].value, 40) if hrets else '?'}` (not the object's identity): a second bond "
+                   "record over the same pair of atoms with the same token hits the cache entry of the first one, its type is never set and it is read as a single bond")
         chk.note("Bond.set_mol2_type is wrapped in functools.cache: a repeated call with the same token on the same bond is skipped "
                  "(and every bond ever typed is kept alive). Not reachable through the readers (each bond is typed once); outside what C07 states.")
 
@@ -995,3 +1019,47 @@ def r5_ensembles(chk):
     chk.decide(rows == [f"len({src_p})"] and lc_ok.get("coords") and lc_ok.get("atomic_charges"),
                "C07.R5", f"{init.key}:list-branch", init.where(), "one conformer per list entry, coordinates and charges in list order",
                "the list constructor no longer takes one conformer per structure with coordinates and charges in list order")
+
+
+def r1b_symbol_is_member_name(chk):
+    """The writer's element token is `self.element.symbol`; the reader accepts a token whose element part is a *member name* of
+    Element (`in Element._member_names_`, `Element[...]`).  The decision-table composition of R1 takes "symbol = member name" for
+    granted; here it is an obligation: the getter is evaluated (finite model, sa/truth.py) for an ordinary member and for the
+    placeholder (value 0), and must give the member's name for both - a symbol the enum does not list ("X" for Unknown) is a token
+    molli writes and its own reader refuses."""
+    from ..truth import Unknown, evaluate
+
+    prog = chk.prog
+    el = prog.cls(f"{ATOM}:Element")
+    mem = el.members.get("symbol")
+    chk.require(mem is not None and mem.getter is not None, "Element.symbol vanished")
+    rets = [r for r in ast.walk(mem.getter) if isinstance(r, ast.Return) and r.value is not None]
+    chk.require(len(rets) >= 1, "Element.symbol has no return")
+    key = f"{el.module.relpath}:Element.symbol:is-the-member-name"
+    from ..canon import path_conditions
+
+    bad = None
+    try:
+        for name, value in (("C", 6), ("Unknown", 0), ("Cl", 17)):
+            def lookup(x, name=name, value=value):
+                t = norm(x)
+                if t == "self.name":
+                    return name
+                if t in ("self.value", "self.z", "int(self)", "self"):
+                    return value
+                return NotImplemented
+            got = None
+            for r in rets:
+                conds = path_conditions(mem.getter, r)
+                if all(evaluate(c, lookup) for c in conds):
+                    got = evaluate(r.value, lookup)
+                    break
+            if got != name and bad is None:
+                bad = (name, got)
+    except Unknown as e:
+        chk.note(f"C07.R1: Element.symbol is computed by `{short(rets[0].value, 50)}`, which the finite model cannot evaluate ({e}); no verdict on symbol = member name")
+        chk.ok("C07.R1", key, f"{el.module.relpath}:{mem.getter.lineno}", "not classified (noted)")
+        return
+    chk.decide(bad is None, "C07.R1", key, f"{el.module.relpath}:{mem.getter.lineno}", "symbol == member name for an ordinary element and for the placeholder",
+               f"Element.{bad[0] if bad else ''}.symbol is {bad[1] if bad else None!r}, not the member name: the mol2 writer emits that token and the reader, which accepts member names of Element only, "
+               "refuses it (`Cannot interpret mol2 type`)")
